@@ -312,6 +312,17 @@ func (bn *baseNode) setOwner(uid, gid int, u avfs.UserReader, checkPerm bool) bo
 		}
 	}
 
+	if bn.mode.IsRegular() {
+		// As chown(2), changing the owner of a regular file clears its set-user-ID bit,
+		// and its set-group-ID bit if the file is group executable
+		// or if the caller is neither the administrator nor in the group of the file.
+		bn.mode &^= fs.ModeSetuid
+
+		if bn.mode&0o010 != 0 || (checkPerm && !u.IsAdmin() && u.Gid() != bn.gid) {
+			bn.mode &^= fs.ModeSetgid
+		}
+	}
+
 	// A uid or gid of -1 means to not change that value.
 	if uid != -1 {
 		bn.uid = uid
@@ -319,16 +330,6 @@ func (bn *baseNode) setOwner(uid, gid int, u avfs.UserReader, checkPerm bool) bo
 
 	if gid != -1 {
 		bn.gid = gid
-	}
-
-	if bn.mode.IsRegular() {
-		// As chown(2), changing the owner of a regular file clears its set-user-ID bit,
-		// and its set-group-ID bit if the file is group executable.
-		bn.mode &^= fs.ModeSetuid
-
-		if bn.mode&0o010 != 0 {
-			bn.mode &^= fs.ModeSetgid
-		}
 	}
 
 	return true
